@@ -9,8 +9,9 @@ WT=/tmp/vw/$(echo "$SD" | tr '/' '_')
 rm -rf "$WT"; mkdir -p /tmp/vw
 git -C /repo worktree prune
 git -C /repo worktree add -q --detach "$WT" HEAD || exit 2
-cleanup(){ git -C /repo worktree remove --force "$WT" 2>/dev/null; rm -rf "$WT"; }
+cleanup(){ git -C /repo worktree remove --force "$WT" 2>/dev/null; rm -rf "$WT"; [ "${KEEP_LOGS:-0}" = 1 ] || rm -rf "$WT.logs"; }
 trap cleanup EXIT
+LG="$WT.logs"; mkdir -p "$LG"
 cd "$WT" || exit 2
 demos=$(ls "$SD"/*_test.go 2>/dev/null)
 [ -z "$demos" ] && { echo '{"error":"no demo test"}' > "$OUT"; exit 1; }
@@ -25,19 +26,19 @@ done
 pkgs=$(echo $pkgs | tr ' ' '\n' | sort -u | tr '\n' ' ')
 tests=$(grep -h '^func Test' $demos | sed 's/func \(Test[A-Za-z0-9_]*\).*/\1/' | paste -sd'|')
 run_demo(){ go test -vet=off -count=1 -timeout 10m -run "^($tests)\$" $pkgs > "$1" 2>&1; echo $?; }
-clean_rc=$(run_demo /tmp/vw/clean.log)
-[ "$clean_rc" != 0 ] && clean_rc=$(run_demo /tmp/vw/clean.log)   # one retry for load flakes
+clean_rc=$(run_demo $LG/clean.log)
+[ "$clean_rc" != 0 ] && clean_rc=$(run_demo $LG/clean.log)   # one retry for load flakes
 git apply "$SD/patch.diff" || { echo '{"error":"patch does not apply"}' > "$OUT"; exit 1; }
-mut_rc=$(run_demo /tmp/vw/mut.log)
-[ "$mut_rc" = 0 ] && mut_rc=$(run_demo /tmp/vw/mut.log)          # schedule-dependent demos: second chance to fail
+mut_rc=$(run_demo $LG/mut.log)
+[ "$mut_rc" = 0 ] && mut_rc=$(run_demo $LG/mut.log)          # schedule-dependent demos: second chance to fail
 rm -f $placed
-go build ./... > /tmp/vw/build.log 2>&1; build_rc=$?
-go test -vet=off -count=1 -timeout 25m ./... > /tmp/vw/suite.log 2>&1; suite_rc=$?
-failed=$(grep '^FAIL\s' /tmp/vw/suite.log | awk '{print $2}' | sed "s#github.com/olric-data/olric#.#" | tr '\n' ' ')
+go build ./... > $LG/build.log 2>&1; build_rc=$?
+go test -vet=off -count=1 -timeout 25m ./... > $LG/suite.log 2>&1; suite_rc=$?
+failed=$(grep '^FAIL\s' $LG/suite.log | awk '{print $2}' | sed "s#github.com/olric-data/olric#.#" | tr '\n' ' ')
 rerun=""
 if [ $suite_rc != 0 ] && [ -n "$failed" ]; then
-  go test -vet=off -count=1 -timeout 25m $failed > /tmp/vw/suite2.log 2>&1; suite_rc=$?; rerun="$failed"
-  if [ $suite_rc != 0 ]; then go test -vet=off -count=1 -timeout 25m $failed > /tmp/vw/suite3.log 2>&1; suite_rc=$?; fi
+  go test -vet=off -count=1 -timeout 25m $failed > $LG/suite2.log 2>&1; suite_rc=$?; rerun="$failed"
+  if [ $suite_rc != 0 ]; then go test -vet=off -count=1 -timeout 25m $failed > $LG/suite3.log 2>&1; suite_rc=$?; fi
 fi
 python3 - "$OUT" <<PY
 import json,sys
